@@ -6,6 +6,7 @@ CONSTANTS
     Design = "temp"
     Policy = "trust"
     RenameAt = "closed"
+    LossyNames = FALSE
     Memo = FALSE
     MaxClear = 0
     MaxExtra = 0
@@ -15,5 +16,6 @@ CONSTANTS
 SPECIFICATION Spec
 INVARIANT NoRaise
 INVARIANT RightResults
+INVARIANT Injective
 PROPERTY Terminates
 CHECK_DEADLOCK TRUE
